@@ -461,8 +461,30 @@ func goCmd(ctx context.Context, args ...string) *exec.Cmd {
 	// the toolchain's scratch space stays inside the framework's build directory
 	tmp := genTmpDir()
 	_ = os.MkdirAll(tmp, 0o755)
-	cmd.Env = append(env, "GOFLAGS=-mod=mod", "GOPROXY=off", "GOTMPDIR="+tmp)
+	cmd.Env = append(env, "GOFLAGS=-mod=mod", "GOPROXY=off", "GOTMPDIR="+tmp, "GOCACHE="+GenGoCache())
 	return cmd
+}
+
+// GenGoCache: the generated packages are compiled with a build cache of their own inside the framework's build
+// directory, so that the thousands of one-off packages of a run do not pile up in the user's Go build cache.  It keeps
+// the compiled standard library and dependencies between runs and is emptied when it grows beyond genCacheLimit.
+func GenGoCache() string { return filepath.Join(VerifDir(), "build", "C13", "gocache") }
+
+const genCacheLimit = 3 << 30
+
+// GenTrimCache empties the private build cache when it has grown beyond the limit (called when a run is over, by the
+// process that is not a worker).
+func GenTrimCache() {
+	var size int64
+	_ = filepath.Walk(GenGoCache(), func(_ string, info os.FileInfo, err error) error {
+		if err == nil && !info.IsDir() {
+			size += info.Size()
+		}
+		return nil
+	})
+	if size > genCacheLimit {
+		_ = os.RemoveAll(GenGoCache())
+	}
 }
 
 // GenCompile builds the child.  A non-empty output with ok == false is the compiler's complaint.
